@@ -42,6 +42,13 @@ CHECKS = {
         "Trusted: mc/refsim.py cohort semantics (documentation reading), spec builder.",
         "5/C05",
     ),
+    "C19": (
+        "exploration",
+        "exhaustive enumeration: every forbidden construct x every allowed embedding context nested to depth 2/3 must be rejected by the real parser; every generated arithmetic expression up to depth 2/3 evaluated on the real parser against reference arithmetic",
+        "The set of expression node classes is taken from the running interpreter and fully classified; each forbidden construct is embedded in every allowed context up to the depth bound (606k strings in the thorough tier) and must be rejected at parse time with no side effect in a scratch directory; accepted arithmetic is compared with reference real arithmetic on scalars and arrays.",
+        "Trusted: numpy float64 as reference arithmetic; classification table of ast.expr subclasses in mc/props/c19.py (constructs the statement leaves open are 'unspecified' and never flagged).",
+        "5/C19",
+    ),
 }
 
 PENDING_REASON = "check not built yet in this session (see DESIGN.md section 8 for the build order); no claim is made"
